@@ -143,6 +143,26 @@ def run(ctx: core.Check):
     for p in pairs:
         sp, name = p["space"], p["name"]
         kind, cls = car[sp]
+        if p["place"] != "alone" and kind == "tuple" and sp == "command" and p["member"]:
+            # a command next to another command of its class in ONE sequence item: flat [code, argument, code, argument]
+            cls_of = lambda n_: n_.split("-")[1] if n_.startswith("suit-") else "?"   # noqa: E731
+            other = next((m for m in sorted(members[sp]) if m != name and cls_of(m) == cls_of(name)), None)
+            if other is None:
+                continue
+            o = {other: value_for(sp, other), name: value_for(sp, name)} if p["place"] == "last" else {name: value_for(sp, name), other: value_for(sp, other)}
+            acc, code = True, -99999
+            try:
+                it_ = cborx.loads(cls.from_obj(o).to_cbor())
+                pos = 2 if p["place"] == "last" else 0
+                if it_.mt == 4 and len(it_.val) == 4 and it_.val[pos].mt in (0, 1):
+                    code = it_.val[pos].val
+            except Exception:
+                acc = False
+            tr.begin({"space": sp, "name": name, "place": p["place"], "next_to": other})
+            tr.ev("Encode", space=sp, name=name, accepted=acc, code=code, back=name)   # (a lone 4-tuple has no decoder of its own)
+            ctx.count("evaluations")
+            ctx.nontriv((sp, name, p["place"]))
+            continue
         if p["place"] != "alone":
             # next to a valid entry: only carriers that hold several entries at once (maps, the policy list)
             if kind not in ("kv", "bits"):
